@@ -15,6 +15,13 @@ func checkC02(c *Ctx) {
 	c.Decides("CONTRA-IDX: no constant index on a value follows a length test on that value whose failing branch does not leave; no index is used after being decremented past the loop guard that bounded it; CONTRA-NIL: in the readers and in the cone of the operations applied to a delivered tree (ReinitIndexes, Newick, Nodes, Edges, Tips and callees) no pointer that the function itself compares with nil is dereferenced where no successful nil test protects it")
 	c.Decides("GO-CLOSE/ERRFLOW: the reader goroutine closes its channel on every path, and every parse error reaches a record's Err before that (shared with C13/C11)")
 	c.DoesNotDecide("absence of all runtime panics (only those contradicting the function's own guard are decided; index sites the compiler cannot prove are not reported), stack exhaustion on deeply nested input, memory; encoding/xml, encoding/json, bufio and strconv are trusted not to panic or hang")
+	c.Decides("FIRST (shared with C13): PhyloXML/Nextstrain FirstTree returns the object the converter filled together with the converter's error, and creates that tree only where a source element exists (an empty document gives nil, which the entry points test)")
+	c.firstTreeConv("io/phyloxml", "PhyloXML")
+	c.firstTreeConv("io/nextstrain", "Nextstrain")
+	c.Floor("FIRST", 6)
+	c.Decides("ERR-DEAD: in the reader packages the error a call stores in a variable is read before that variable is assigned again on every path (a failed read cannot be overwritten by the next one)")
+	c.Decides("ERR-SWALLOW: in the reader packages, a branch entered because an error value is non-nil does not leave the function with a nil error (no `return nil`, no bare return with an unset named result)")
+	c.errDeadIn("returns either a tree ... or an error", 40, "io/newick/", "io/nexus/", "io/phyloxml/", "io/nextstrain/", "io/utils/", "io/fileutils/")
 	clauseP := "it never panics, kills the process or loops forever"
 	c.checkEOFLoops("EOFLOOP")
 	// CONTRA-IDX over the reader packages
